@@ -3,14 +3,18 @@ package wpool
 import (
 	"context"
 	"time"
+
+	"github.com/glebziz/fs_db/internal/verifhook"
 )
 
 func (p *Pool) Send(ctx context.Context, e Event) {
+	verifhook.At("wpool.send.enter")
 	e.ctx = ctx
 
 	p.sendWg.Add(1)
 	defer p.sendWg.Done()
 
+	verifhook.At("wpool.send.check")
 	if p.ctx.Err() != nil {
 		return
 	}
@@ -19,7 +23,9 @@ func (p *Pool) Send(ctx context.Context, e Event) {
 	case <-p.ctx.Done():
 		return
 	case p.ch <- e:
+		verifhook.At("wpool.send.direct")
 	case <-time.After(p.opts.SendDuration):
+		verifhook.At("wpool.send.timeout")
 		p.lazySend(e)
 	}
 }
